@@ -11,6 +11,7 @@ import (
 	"crypto/md5"
 	"crypto/sha256"
 	"encoding/hex"
+	"errors"
 	"fmt"
 	"io"
 	"io/ioutil"
@@ -363,7 +364,14 @@ func TestVerifC01(t *testing.T) {
 		var pool *ksPool
 		scribbleN := 256
 		if overlap {
-			pool = ksInstallPool(env.quiet, 2+rv.Intn(2))
+			// in 2 of 3 overlap cases 1-2 more buffers are out for the whole case (other clients' requests
+			// that stay in flight): see ksInstallPoolHeld
+			heldN := 0
+			if rv.Chance(2, 3) {
+				heldN = 1 + rv.Intn(2)
+			}
+			pool = ksInstallPoolHeld(env.quiet, 2+rv.Intn(2), heldN)
+			tags = append(tags, fmt.Sprintf("pool-held-elsewhere=%d", heldN))
 			// also at every filesystem step inside the volume work (when unix_volume.go is the
 			// instrumented copy): whatever is in the pool then may be overwritten by somebody else
 			var smu sync.Mutex
@@ -381,12 +389,17 @@ func TestVerifC01(t *testing.T) {
 		}
 		// perform sends one request and appends it (and, through `nested`, the requests that ran while it
 		// was stalled) to ops/obs in the order in which they took effect.
+		hung := false // a request did not return: the case ends there
 		var perform func(rr *vRand, kind string, b *c01Block, bidx int, nested func()) int
 		perform = func(rr *vRand, kind string, b *c01Block, bidx int, nested func()) int {
 			var code int
+			if (kind == "PUTSHORT" || kind == "PUTFAIL") && (b.big || len(b.data) == 0) {
+				kind = "PUT" // nothing to cut
+			}
 			var gop, gbody, gcl string
 			gbody, gcl = "None", "None"
 			slot := -1
+			shortNote := ""
 			var slotAfter [][]string
 			slotExtra := 0
 			switch kind {
@@ -400,13 +413,21 @@ func TestVerifC01(t *testing.T) {
 						ops, obs, descs = append(ops, ""), append(obs, ""), append(descs, "")
 						nested()
 					}
-					env.serve(sw, kind, "/"+b.hash, nil, -1, false)
+					if !ksGuard(func() { env.serve(sw, kind, "/"+b.hash, nil, -1, false) }) {
+						hung = true
+					}
 					rr2 = sw.ResponseRecorder
 					tags = append(tags, "stalled="+kind)
 				} else {
-					rr2 = env.do(kind, "/"+b.hash, nil, -1, false)
+					if !ksGuard(func() { rr2 = env.do(kind, "/"+b.hash, nil, -1, false) }) {
+						hung = true
+						rr2 = httptest.NewRecorder()
+					}
 				}
 				code = rr2.Code
+				if hung {
+					code = 0 // the handler did not return (whatever it may have written before)
+				}
 				if code == 200 {
 					gbody = "(Some " + tab.bytes(rr2.Body.Bytes()).g() + ")"
 				}
@@ -423,6 +444,7 @@ func TestVerifC01(t *testing.T) {
 				var clen int64 = -1
 				var c *c01Content
 				var d []byte
+				short := false
 				switch kind {
 				case "PUT":
 					if b.big {
@@ -462,14 +484,57 @@ func TestVerifC01(t *testing.T) {
 					sz := int64(BlockSize + 1 + rr.Intn(5))
 					body, clen = io.LimitReader(zeroReader{}, sz), sz
 					c = tab.add(fmt.Sprintf("oversize:%d", sz), sz, "oversize", nil)
+				case "PUTSHORT", "PUTFAIL":
+					// an upload that does not arrive completely: Content-Length announces the whole block,
+					// the body ends (PUTSHORT: EOF, the client closed its side) or breaks (PUTFAIL: a read
+					// error) after a proper prefix -- nothing, one byte, all but one, anything between.
+					// Rarely the whole block arrives but more was announced.
+					cut := rr.Intn(len(b.data))
+					switch rr.Intn(5) {
+					case 0:
+						cut = 0
+					case 1:
+						cut = len(b.data) - 1
+					case 2:
+						if len(b.data) > 1 {
+							cut = 1
+						}
+					}
+					clen = int64(len(b.data))
+					if kind == "PUTSHORT" && rr.Chance(1, 6) {
+						cut = len(b.data)
+						clen += int64(1 + rr.Intn(50))
+					}
+					recv := b.data[:cut]
+					fb := &ksFailBody{data: recv, err: io.EOF}
+					if kind == "PUTFAIL" {
+						fb.err = errors.New("read tcp 10.0.0.1:25107->10.0.0.2:40000: read: connection reset by peer")
+					}
+					if nested != nil {
+						fb.hook = nested
+						tags = append(tags, "stalled="+kind)
+					}
+					body, c = fb, tab.bytes(recv)
+					short = true
+					shortNote = fmt.Sprintf("Content-Length %d, body %s after %d bytes", clen, map[bool]string{true: "ends", false: "breaks"}[kind == "PUTSHORT"], cut)
+					tags = append(tags, fmt.Sprintf("short-upload=%s", map[bool]string{true: "nothing", false: "prefix"}[cut == 0]))
 				}
 				if nested != nil && d != nil && len(d) > 0 {
 					body, clen = &ksSlowBody{data: d, cut: rv.Intn(len(d) + 1), hook: nested}, int64(len(d))
 					tags = append(tags, "stalled=PUT")
 				}
-				rr2 := env.do("PUT", "/"+b.hash, body, clen, false)
-				code = rr2.Code
-				gop = "Put " + gStr(b.hash) + " " + c.g()
+				var rr2 *httptest.ResponseRecorder
+				if !ksGuard(func() { rr2 = env.do("PUT", "/"+b.hash, body, clen, false) }) {
+					hung = true
+					code = 0
+				} else {
+					code = rr2.Code
+				}
+				if short {
+					gop = fmt.Sprintf("PutShort %s %s %d", gStr(b.hash), c.g(), clen)
+				} else {
+					gop = "Put " + gStr(b.hash) + " " + c.g()
+				}
 			}
 			var rows []string
 			extra := slotExtra
@@ -483,6 +548,13 @@ func TestVerifC01(t *testing.T) {
 			}
 			o := fmt.Sprintf("O %d %s %s %s %d", code, gbody, gcl, gList(rows), extra)
 			dsc := fmt.Sprintf("%s %s -> %d", kind, b.hash[:6], code)
+			if shortNote != "" {
+				dsc = fmt.Sprintf("%s %s (%s) -> %d", kind, b.hash[:6], shortNote, code)
+			}
+			if hung && code == 0 {
+				dsc = fmt.Sprintf("%s %s -> the handler did not return", kind, b.hash[:6])
+				tags = append(tags, "handler-did-not-return")
+			}
 			if slot < 0 {
 				ops, obs, descs = append(ops, gop), append(obs, o), append(descs, dsc)
 			} else {
@@ -494,7 +566,7 @@ func TestVerifC01(t *testing.T) {
 			}
 			return code
 		}
-		for len(ops) < nops+3 && (len(ops) < nops || len(queue) > 0) {
+		for !hung && len(ops) < nops+4 && (len(ops) < nops || len(queue) > 0) {
 			var kind string
 			b := blocks[r.Intn(len(blocks))]
 			if len(queue) > 0 {
@@ -505,16 +577,29 @@ func TestVerifC01(t *testing.T) {
 				queue = queue[1:]
 			} else {
 				switch x := r.Intn(100); {
-				case x < 33:
+				case x < 30:
 					kind = "GET"
-				case x < 45:
+				case x < 40:
 					kind = "HEAD"
-				case x < 83:
+				case x < 74:
 					kind = "PUT"
-				case x < 98:
+				case x < 86:
 					kind = "PUTWRONG"
+				case x < 92:
+					kind = "PUTSHORT"
+				case x < 98:
+					kind = "PUTFAIL"
 				default:
 					kind = "PUTLONG"
+				}
+				if (kind == "PUTSHORT" || kind == "PUTFAIL") && r.Chance(2, 3) {
+					// first a request that leaves this very block in the buffer the pool hands out next
+					for j := range blocks {
+						if blocks[j] == b {
+							queue = append(queue, fmt.Sprintf("%s:%d", kind, j))
+						}
+					}
+					kind = []string{"PUT", "GET"}[r.Intn(2)]
 				}
 				if b.coll && kind == "PUTWRONG" && r.Bool() {
 					kind = "PUTCOLL"
@@ -534,7 +619,10 @@ func TestVerifC01(t *testing.T) {
 						if len(blocks) > 1 && rv.Chance(2, 3) {
 							nbi = 1 - bidx
 						}
-						nkind := []string{"GET", "GET", "PUT", "PUT", "PUTWRONG", "HEAD"}[rv.Intn(6)]
+						nkind := []string{"GET", "GET", "PUT", "PUT", "PUTWRONG", "HEAD", "PUTSHORT", "PUTFAIL"}[rv.Intn(8)]
+						if hung {
+							break
+						}
 						perform(rv, nkind, blocks[nbi], nbi, nil)
 						tags = append(tags, "nested="+nkind)
 					}
@@ -546,7 +634,7 @@ func TestVerifC01(t *testing.T) {
 			} else {
 				code = perform(r, kind, b, bidx, nil)
 			}
-			if code == 200 && strings.HasPrefix(kind, "PUT") && len(queue) == 0 {
+			if code == 200 && strings.HasPrefix(kind, "PUT") && len(queue) == 0 && !hung {
 				queue = append(queue, fmt.Sprintf("GET:%d", bidx))
 			}
 		}
